@@ -34,7 +34,7 @@ func C09(c *Ctx) {
 	ap := g.Pkg("ast")
 	_ = ap
 	// ---- b: merge guards
-	c09Merge(c, g)
+	optimizerMergeCases(c, g)
 	c09Effects(c, g)
 	// ---- c
 	traversalExhaustiveness(c, "C09-c", nil)
@@ -297,128 +297,6 @@ func cloneOwnership(c *Ctx, rule string, only map[string]bool) {
 	}
 }
 
-func c09Merge(c *Ctx, g *load.G) {
-	r := c.R
-	ap := g.Pkg("ast")
-	fd := load.FuncDecl(ap, "grammarOptimizer", "optimize")
-	if fd == nil {
-		return
-	}
-	// find tagless switch statements whose case bodies assign `combined = true`
-	n := 0
-	ast.Inspect(fd.Body, func(nd ast.Node) bool {
-		sw, ok := nd.(*ast.SwitchStmt)
-		if !ok || sw.Tag != nil {
-			return true
-		}
-		for i, cl := range sw.Body.List {
-			cc := cl.(*ast.CaseClause)
-			if len(cc.List) != 1 {
-				continue
-			}
-			// operands: identifiers in the clause typed *CharClassMatcher / *LitMatcher
-			classVars, litVars := map[string]bool{}, map[string]bool{}
-			touchesClass := false
-			ast.Inspect(cc, func(m ast.Node) bool {
-				switch x := m.(type) {
-				case *ast.Ident:
-					if t := ap.TypesInfo.TypeOf(x); t != nil {
-						switch namedOf(t) {
-						case "CharClassMatcher":
-							if _, isPtr := t.(*types.Pointer); isPtr {
-								classVars[x.Name] = true
-							}
-						case "LitMatcher":
-							if _, isPtr := t.(*types.Pointer); isPtr {
-								litVars[x.Name] = true
-							}
-						}
-					}
-				case *ast.CompositeLit:
-					if nospace(x.Type) == "CharClassMatcher" {
-						touchesClass = true
-					}
-				case *ast.AssignStmt:
-					l := nospace(x.Lhs[0])
-					if strings.HasSuffix(l, ".Chars") || strings.HasSuffix(l, ".Ranges") || strings.HasSuffix(l, ".UnicodeClasses") {
-						touchesClass = true
-					}
-				}
-				return true
-			})
-			if !touchesClass {
-				continue
-			}
-			n++
-			conj := map[string]bool{}
-			var split func(e ast.Expr)
-			split = func(e ast.Expr) {
-				if be, ok := e.(*ast.BinaryExpr); ok && be.Op == token.LAND {
-					split(be.X)
-					split(be.Y)
-					return
-				}
-				if pe, ok := e.(*ast.ParenExpr); ok {
-					split(pe.X)
-					return
-				}
-				conj[nospace(e)] = true
-			}
-			split(cc.List[0])
-			var bad []string
-			var ops []string
-			for v := range classVars {
-				ops = append(ops, v)
-				if !conj["!"+v+".Inverted"] {
-					bad = append(bad, "class operand "+v+" may be inverted: the union of two member lists is not the union of the complements ([^a] / [^b] matches everything, [^ab] does not)")
-				}
-			}
-			for v := range litVars {
-				ops = append(ops, v)
-				if !conj["len([]rune("+v+".Val))==1"] {
-					bad = append(bad, "literal operand "+v+" is not required to be a single rune")
-				}
-			}
-			sort.Strings(ops)
-			if len(ops) == 2 {
-				if !conj[ops[0]+".IgnoreCase=="+ops[1]+".IgnoreCase"] && !conj[ops[1]+".IgnoreCase=="+ops[0]+".IgnoreCase"] {
-					bad = append(bad, "operands "+ops[0]+","+ops[1]+" are not required to have equal IgnoreCase flags")
-				}
-			} else {
-				bad = append(bad, fmt.Sprintf("expected two operands, found %v", ops))
-			}
-			sort.Strings(bad)
-			construct := fmt.Sprintf("G.ast.optimize:merge-case#%d(%s)", i+1, strings.Join(ops, ","))
-			if len(bad) > 0 {
-				r.Bad("C09-b", construct, "", g.Where(cc.Pos()), strings.Join(bad, "; "))
-			} else {
-				r.Ok("C09-b", construct, "", g.Where(cc.Pos()), "guards: "+nospace(cc.List[0]))
-			}
-		}
-		return true
-	})
-	r.Min("C09-b merge cases", 4, n)
-	// literal concatenation in sequences requires equal IgnoreCase
-	okSeq := false
-	ast.Inspect(fd.Body, func(nd ast.Node) bool {
-		is, ok := nd.(*ast.IfStmt)
-		if !ok {
-			return true
-		}
-		concat := false
-		for _, st := range is.Body.List {
-			if as, ok := st.(*ast.AssignStmt); ok && as.Tok == token.ADD_ASSIGN && strings.HasSuffix(nospace(as.Lhs[0]), ".Val") {
-				concat = true
-			}
-		}
-		if concat {
-			cond := nospace(is.Cond)
-			okSeq = strings.Contains(cond, ".IgnoreCase==") && strings.Contains(cond, "ok0&&ok1")
-		}
-		return true
-	})
-	r.Check(okSeq, "C09-b", "G.ast.optimize:literal-concatenation-guard", "", g.Where(fd.Pos()), "adjacent literals are concatenated only when both are literals with equal IgnoreCase", "literal concatenation is not guarded by IgnoreCase equality")
-}
 
 func c09Entrypoints(c *Ctx, g *load.G) {
 	r := c.R
@@ -462,77 +340,6 @@ func c09Effects(c *Ctx, g *load.G) {
 	fd := load.FuncDecl(ap, "grammarOptimizer", "optimize")
 	if fd == nil {
 		return
-	}
-	// the merge switch of the choice case
-	var sw *ast.SwitchStmt
-	ast.Inspect(fd.Body, func(n ast.Node) bool {
-		if x, ok := n.(*ast.SwitchStmt); ok && x.Tag == nil && sw == nil {
-			for _, cl := range x.Body.List {
-				for _, st := range cl.(*ast.CaseClause).Body {
-					if as, ok := st.(*ast.AssignStmt); ok && nospace(as.Lhs[0]) == "combined" {
-						sw = x
-					}
-				}
-			}
-		}
-		return true
-	})
-	if sw == nil {
-		r.Unk("C09-f", "G.ast.optimize:merge-effects", "", g.Where(fd.Pos()), "merge switch not found")
-		return
-	}
-	for i, cl := range sw.Body.List {
-		cc := cl.(*ast.CaseClause)
-		if len(cc.List) != 1 {
-			continue
-		}
-		cond := nospace(cc.List[0])
-		var stores []string
-		for _, st := range cc.Body {
-			if as, ok := st.(*ast.AssignStmt); ok {
-				stores = append(stores, nospace(as.Lhs[0])+"="+nospace(as.Rhs[0]))
-			}
-		}
-		has := func(x string) bool {
-			for _, s := range stores {
-				if s == x {
-					return true
-				}
-			}
-			return false
-		}
-		var bad []string
-		if !has("combined=true") {
-			bad = append(bad, "the case does not set combined (the absorbed alternative would stay in the list)")
-		}
-		switch {
-		case strings.HasPrefix(cond, "cok0&&cok1"):
-			for _, f := range []string{"Chars", "Ranges", "UnicodeClasses"} {
-				if !has("c0." + f + "=append(c0." + f + ",c1." + f + "...)") {
-					bad = append(bad, "member list "+f+" of the second class is not appended to the first: its members are lost when the second alternative is removed")
-				}
-			}
-		case strings.HasPrefix(cond, "lok0&&cok1"):
-			if !has("c1.Chars=append(c1.Chars,[]rune(l0.Val)...)") || !has("expr.Alternatives[i-1]=c1") {
-				bad = append(bad, "the literal's rune must be added to the class and the class stored at index i-1 (element i is removed afterwards)")
-			}
-		case strings.HasPrefix(cond, "cok0&&lok1"):
-			if !has("c0.Chars=append(c0.Chars,[]rune(l1.Val)...)") {
-				bad = append(bad, "the literal's rune is not added to the class that stays at index i-1")
-			}
-		case strings.HasPrefix(cond, "lok0&&lok1"):
-			okNew := false
-			for _, s := range stores {
-				if strings.HasPrefix(s, "expr.Alternatives[i-1]=&") {
-					okNew = true
-				}
-			}
-			if !okNew {
-				bad = append(bad, "the new class is not stored at index i-1")
-			}
-		}
-		sort.Strings(bad)
-		r.Check(len(bad) == 0, "C09-f", fmt.Sprintf("G.ast.optimize:merge-case#%d:effect", i+1), "", g.Where(cc.Pos()), "members moved completely, survivor at index i-1, combined set", strings.Join(bad, "; "))
 	}
 	// (3) removal iff combined
 	okRemove, whyRemove := optimizerAbsorbedRemoved(c, g)
